@@ -71,6 +71,12 @@ def LegalWidth (d : Nat) (raws : List (Option Nat)) : Prop :=
 def InRange (w : Nat) (raws : List (Option Nat)) : Prop :=
   ∀ x, some x ∈ raws → x < 2 ^ w ∧ (1 < w → x < 2 ^ w - 1)
 
+/-- the spread of the present entries leaves room for a 6-bit increment width: the encoder writes
+    `max − min + 1` and reserves all ones, so it needs `max − min + 3 ≤ 2^63`.  Always true for
+    field widths up to 62 bits (see `C05_span_ok_of_width`). -/
+def SpanOK (raws : List (Option Nat)) : Prop :=
+  ∀ x y, some x ∈ raws → some y ∈ raws → y - x + 3 ≤ 2 ^ 63
+
 /-- the `i`-th increment of `d` bits after the `w + 6` leading bits -/
 def incrAt (w d : Nat) (bs : Bits) (i : Nat) : Bits := (bs.drop (w + 6 + i * d)).take d
 
